@@ -78,7 +78,7 @@ func (rc *replayCtx) solveValues(terms []string) (map[string]string, error) {
 	for _, t := range terms {
 		fmt.Fprintf(&b, "(get-value (%s))\n", t)
 	}
-	dir := filepath.Join(rc.eng.verifDir, "out", "replaytmp")
+	dir := filepath.Join(rc.eng.verifDir, "out", replayTmpName())
 	os.MkdirAll(dir, 0o755)
 	rc.n++
 	file := filepath.Join(dir, fmt.Sprintf("%s-%d.smt2", sanitizeFile(rc.o.Name), rc.n))
@@ -664,7 +664,7 @@ func replayObligation(eng *Engine, res *UnitResult, o *Obligation) (bool, string
 	b.WriteString("}\n")
 	src := b.String()
 	// write and run through an overlay
-	dir := filepath.Join(eng.verifDir, "out", "replaytmp")
+	dir := filepath.Join(eng.verifDir, "out", replayTmpName())
 	os.MkdirAll(dir, 0o755)
 	rc.n++
 	srcFile := filepath.Join(dir, fmt.Sprintf("%s_%d_replay_test.go", sanitizeFile(o.Name), rc.n))
